@@ -29,6 +29,9 @@ func SetupC08Dispatch() any {
 	if mode == 4 {
 		gopts = append(gopts, fox.WithRedirectTrailingSlash(true))
 	}
+	if mode == 5 {
+		gopts = append(gopts, fox.WithIgnoreTrailingSlash(true)) // router-wide ignore, per-route redirect override
+	}
 	st.p = newProbeRouter(append(gopts, fox.WithNoMethod(false), fox.WithAutoOptions(false))...)
 	for i, rt := range base.Routes {
 		ign, red := false, false
@@ -45,8 +48,17 @@ func SetupC08Dispatch() any {
 			if i%3 == 0 {
 				ign, red = true, false
 			}
+		case 5:
+			ign = true
+			if i%3 == 1 {
+				ign, red = false, true
+			}
 		}
-		if mode != 4 || ign {
+		if mode == 5 {
+			if red {
+				ropts = append(ropts, fox.WithRedirectTrailingSlash(true))
+			}
+		} else if mode != 4 || ign {
 			ropts = append(ropts, fox.WithIgnoreTrailingSlash(ign))
 			if red {
 				ropts = append(ropts, fox.WithRedirectTrailingSlash(true))
@@ -199,7 +211,7 @@ func HarnessC08Dispatch(st any) {
 		sym.Assume(query[i] != '#' && query[i] != ' ' && query[i] > 0x20 && query[i] < 0x7f) // a raw query as a server would hand it over
 	}
 	req := &http.Request{Method: method, Host: "example.com", URL: &url.URL{Path: path, RawQuery: query}}
-	if sym.Param("raw") == 1 {
+	if sym.ParamOr("raw", 0) == 1 {
 		// percent-encoded request: the router matches on RawPath; Path is its decoded form
 		for i := 0; i < len(path); i++ {
 			sym.Assume(sym.ByteIn(path[i], rawPathBytes)) // a RawPath a server can hand over (RFC 3986 pchar / "/" / "%")
@@ -247,7 +259,7 @@ func HarnessC08Dispatch(st any) {
 		if ok {
 			dp, okd := pctDecode(rp)
 			wantPath := toggleSlash(path)
-			if sym.Param("raw") == 1 {
+			if sym.ParamOr("raw", 0) == 1 {
 				wantPath, _ = pctDecode(wantPath) // compare decoded octets
 			}
 			sym.Assert(okd && dp == wantPath, "(e) Location resolves to the slash-adjusted request path")
